@@ -267,6 +267,10 @@ impl ServerAccountStorage for ServerFileStorage {
             folder_id,
         )
         .await?;
+        // Load the existing events so that a replacement that
+        // does not verify rolls back to them and not to an
+        // empty event log
+        event_log.load_tree().await?;
         event_log.replace_all_events(diff).await?;
         let vault = FolderReducer::new()
             .reduce(&event_log)
